@@ -1,6 +1,7 @@
 package trzsz
 
 import (
+	"syscall"
 	"bytes"
 	"fmt"
 	"io"
@@ -19,6 +20,21 @@ func vOpenFDs() int {
 		return -1
 	}
 	return len(ents)
+}
+
+func vHighestFD() int {
+	ents, err := os.ReadDir("/proc/self/fd")
+	if err != nil {
+		return 64
+	}
+	hi := 0
+	for _, e := range ents {
+		var n int
+		if _, err := fmt.Sscan(e.Name(), &n); err == nil && n > hi {
+			hi = n
+		}
+	}
+	return hi
 }
 
 // vGenTree builds a directory tree of about n entries under root.
@@ -168,6 +184,32 @@ func vC15Component(rc *runCtx) {
 		maxSize = 12
 	}
 	files, dirs := vGenTree(rc, src, n, maxSize)
+	if tp.Bool("deepchain", 120) {
+		// a tree nested deeper than the number of descriptors the process may still open: more entries than
+		// it may hold open files at once, all on one path
+		os.RemoveAll(src)
+		depth := 40 + tp.Draw("deepchain.depth", 60)
+		p := src
+		files, dirs = 0, 0
+		for i := 0; i < depth; i++ {
+			os.MkdirAll(p, 0755)
+			vWriteFile(filepath.Join(p, fmt.Sprintf("f%d.txt", i)), []byte(fmt.Sprintf("level %d", i)))
+			files++
+			dirs++
+			p = filepath.Join(p, fmt.Sprintf("d%d", i))
+		}
+		os.MkdirAll(p, 0755)
+		var lim syscall.Rlimit
+		if syscall.Getrlimit(syscall.RLIMIT_NOFILE, &lim) == nil {
+			old := lim
+			lim.Cur = uint64(vHighestFD() + 1 + 20)
+			if lim.Cur < old.Cur && syscall.Setrlimit(syscall.RLIMIT_NOFILE, &lim) == nil {
+				defer syscall.Setrlimit(syscall.RLIMIT_NOFILE, &old)
+				rc.fault("descriptor-limit-below-tree-depth")
+				rc.res.Scenario["deep_chain"] = fmt.Sprintf("depth %d, descriptor limit %d", depth, lim.Cur)
+			}
+		}
+	}
 	shrink := tp.Pick("mutate", 6, 2, 1, 2) // 1 = shrink a file between scan and read, 2 = extend, 3 = shrink it while it is being read
 	rc.res.Scenario["entries"] = files + dirs
 	rc.res.Scenario["mutate"] = shrink
@@ -175,8 +217,7 @@ func vC15Component(rc *runCtx) {
 
 	list, err := checkPathsReadable([]string{src}, true)
 	if err != nil {
-		rc.res.Class = "error"
-		rc.res.Msg = err.Error()
+		rc.violate("scan", "C15:scan-error", "scanning a readable tree of %d entries failed: %v (%v)", files+dirs, err, rc.res.Scenario["deep_chain"])
 		return
 	}
 	sender := newTransfer(io.Discard, nil, false, nil)
@@ -188,7 +229,9 @@ func vC15Component(rc *runCtx) {
 		rc.res.Scenario["note"] = "no sub files"
 		return
 	}
-	if _, err := arch[0].marshalSourceFile(); err != nil {
+	// the receiver learns about the directory from the NAME message, as marshalled by the sender
+	nameMsg, err := arch[0].marshalSourceFile()
+	if err != nil {
 		rc.res.Class = "error"
 		rc.res.Msg = err.Error()
 		return
@@ -297,11 +340,17 @@ func vC15Component(rc *runCtx) {
 		recv := newTransfer(io.Discard, nil, false, nil)
 		recv.transferConfig.Protocol = kProtocolVersion4
 		recv.transferConfig.Directory = true
-		top := *arch[0]
-		top.Archive = true
-		fw, _, err := recv.createDirOrFile(dst, &top, true)
+		top, err := unmarshalSourceFile(nameMsg)
 		if err != nil {
 			return err
+		}
+		fw, _, err := recv.createDirOrFile(dst, top, true)
+		if err != nil {
+			return err
+		}
+		if fw == nil {
+			// the NAME message did not announce an archive stream: nothing will read the one that is sent
+			return nil
 		}
 		defer fw.Close()
 		pos := 0
